@@ -12,7 +12,17 @@ fn run(case: &str) -> String {
     let mode = h[0];
     let i0: u32 = h[1].parse().unwrap();
     let mut its: Vec<Box<dyn Iterator<Item = DltMessage>>> = vec![];
-    for (s, src) in body.trim().split(';').filter(|x| !x.is_empty()).enumerate() {
+    // `-*N` stands for N empty sources
+    let expanded: Vec<String> = body
+        .trim()
+        .split(';')
+        .filter(|x| !x.is_empty())
+        .flat_map(|x| match x.trim().strip_prefix("-*").and_then(|n| n.parse::<usize>().ok()) {
+            Some(n) => vec!["-".to_string(); n],
+            None => vec![x.to_string()],
+        })
+        .collect();
+    for (s, src) in expanded.iter().enumerate() {
         let mut v = vec![];
         if src.trim() != "-" {
             for (p, r) in src.split(',').filter(|x| !x.is_empty()).enumerate() {
@@ -62,6 +72,11 @@ impl Area for Mrg {
                 })
                 .collect();
             srcs.push(v.join(","));
+        }
+        // sometimes a long run of empty sources (a glob that matches thousands of empty files)
+        if rng.chance(40) && k > 0 {
+            let at = rng.below(srcs.len() as u64 + 1) as usize;
+            srcs.insert(at, format!("-*{}", 20_000 + rng.below(30_000)));
         }
         format!("{} {} | {}", mode, rng.below(2000), srcs.join(";"))
     }
